@@ -108,12 +108,11 @@ func (rc *resources) checkMemory(rsvp int64, prio uint8) error {
 	}
 
 	limit := rc.limit.GetMemoryLimit()
-	if limit == math.MaxInt64 {
+	newmem, addOk := addInt64WithOverflow(rc.memory, rsvp)
+	if limit == math.MaxInt64 && addOk {
 		// Special case where we've set max limits.
 		return nil
 	}
-
-	newmem, addOk := addInt64WithOverflow(rc.memory, rsvp)
 
 	threshold, mulOk := mulInt64WithOverflow(1+int64(prio), limit)
 	if !mulOk {
